@@ -23,7 +23,7 @@ def demo_run(tag):
         return "compile-failed", o[-800:]
     codes = []
     if mpi:
-        for n in (2, 3):
+        for n in [int(x) for x in os.environ.get("MUT_NP", "2,3").split(",")]:
             rc, o = sh("timeout 300 mpirun --allow-run-as-root --oversubscribe -np %d %s" % (n, exe))
             codes.append(rc)
     else:
